@@ -30,6 +30,7 @@ def excJ : Option Exc → Json
   | some .valueError => .str "ValueError"
   | some .indexError => .str "IndexError"
   | some .keyError => .str "KeyError"
+  | some .typeError => .str "TypeError"
 
 def segJ (s : Seg STerm) : Json :=
   Json.mkObj [("rows", .arr (s.rows.map fun r => Json.arr #[ratJ r.1, termJ r.2]).toArray),
